@@ -210,7 +210,13 @@ def design_mc(ctx):
 
 # ==============================================================================================
 # scenarios
-ALTS = {0: "C", 1: "C", 2: "C,G"}
+class _Alts(dict):
+    """ALT column for a record whose highest allele index is k (k >= 3: an STR-like site with many length alleles)"""
+    def __missing__(self, k):
+        return ",".join(["C", "G"] + ["A" + "T" * j for j in range(1, k - 1)])
+
+
+ALTS = _Alts({0: "C", 1: "C", 2: "C,G"})
 
 
 def _gt_text(shape):
@@ -268,6 +274,11 @@ def _rand_shape(rng):
     if r < 0.12:
         return None  # record without GT
     p = rng.choice([1, 2, 2, 2, 2, 3, 4])
+    if r > 0.95:
+        # beyond the capacity of whatshap's packed Genotype class (allele index >= 16, ploidy >= 15): still well-formed VCF
+        if rng.random() < 0.6:
+            return {"gt": [rng.choice([0, 3, 16, 17, 21]) for _ in range(2)], "ph": rng.random() < 0.6}
+        return {"gt": [rng.choice([0, 1]) for _ in range(rng.choice([15, 16]))], "ph": rng.random() < 0.5}
     return {"gt": [rng.choice([-1, 0, 0, 1, 1, 2]) for _ in range(p)], "ph": p > 1 and rng.random() < 0.5}
 
 
